@@ -551,10 +551,7 @@ theorem pqApply_heap (less : P → P → Bool) (q : PQ K P) (e : PQEv K P) :
   cases e with
   | next => exact Or.inl rfl
   | grow =>
-    simp only [pqApply, Juniper.Model.PQ.grow]
-    split
-    · exact Or.inr ⟨.grow, rfl, rfl⟩
-    · exact Or.inl rfl
+    exact Or.inr ⟨.grow, rfl, rfl⟩
   | pop =>
     simp only [pqApply, pop_eq]
     cases hp : Juniper.Model.Heap.pop (lessKP less) q.h with
